@@ -244,6 +244,9 @@ def admissible_exception(cfg, e):
     return isinstance(e, ValueError) and str(e).startswith('Rank(')
 
 def job(cfg):
+    if cfg.get('part') == 'saveblock':
+        from vp.checks import c10_save
+        return c10_save.job(cfg)
     if cfg['solver'] == 'cpl':
         from vp.checks import c10_cpl
         return c10_cpl.job(cfg)
@@ -439,7 +442,11 @@ def replay_on_build(path):
     return None, 'not reproduced (%s)' % dd.get('outcome')
 
 def replay_main(path):
-    if json.load(open(path)).get('cfg', {}).get('solver') == 'cpl':
+    cfg_ = json.load(open(path)).get('cfg', {})
+    if cfg_.get('part') == 'saveblock':
+        from vp.checks import c10_save
+        rep, why = c10_save.replay_on_build(path)
+    elif cfg_.get('solver') == 'cpl':
         from vp.checks import c10_cpl
         rep, why = c10_cpl.replay_on_build(path)
     else:
@@ -455,8 +462,8 @@ def main(tier):
     from vp import common
     from vp.pysym import loader
     ev = common.Evidence('C10', 'fault_enumeration', tier)
-    from vp.checks import c10_cpl
-    cfgs = configs(tier) + c10_cpl.configs(tier)
+    from vp.checks import c10_cpl, c10_save
+    cfgs = configs(tier) + c10_cpl.configs(tier) + c10_save.configs(tier)
     for c in cfgs: c['_timeout_ms'] = 10000 if tier == 'quick' else 60000
     results = common.run_jobs('vp.checks.c10', 'job', cfgs)
     known = common.known_findings('C10')
@@ -479,12 +486,13 @@ def main(tier):
         for s in res['sat']:
             if s.get('prop', 'C10') != 'C10': continue          # C07-tagged obligations of the cpl harness are reported by the C07 check
             iscpl = cfg['solver'] == 'cpl'
-            key = c10_cpl.finding_key(cfg, s['label']) if iscpl else finding_key(cfg, s['label'])
+            hmod = c10_save if cfg.get('part') == 'saveblock' else c10_cpl
+            key = hmod.finding_key(cfg, s['label']) if iscpl else finding_key(cfg, s['label'])
             if key in seen: seen[key] += 1; continue
             seen[key] = 1
             rp = common.write_replay('C10', json.dumps(cfg, sort_keys=True) + s['label'],
                                      {'property': 'C10', 'cfg': cfg, 'label': s['label'], 'model': s['model']})
-            rep, why = c10_cpl.replay_on_build(rp) if iscpl else replay_on_build(rp)
+            rep, why = hmod.replay_on_build(rp) if iscpl else replay_on_build(rp)
             if rep is None:
                 herr.append('%s: counterexample for "%s" %s (%s)' % (json.dumps(cfg), s['label'], why, rp))
             elif key in known: known_hits.append((key, known[key]['what']))
@@ -498,7 +506,8 @@ def main(tier):
     ev.cov.update({'evaluations': len(cfgs), 'distinct_nontrivial': reached,
                    'rule': 'one fault plan = (solver, cone structure, start-point mode, failing call (factor #i | solve #j), iteration class k=0 | 1<=k<maxiters); non-trivial = the injected failure is reached on at least one explored path; within a plan all data, iterate, tolerances, k and the results of the non-failing KKT solves are solver variables',
                    'paths': paths, 'outcomes': outcomes,
-                   'functions_encoded': ['coneprog.conelp', 'coneprog.coneqp (incl. no-inequality shortcut)', 'cvxprog.cpl (factorisation failure at an arbitrary iteration, restore-and-retry path, user F a memoised symbolic stub)'],
+                   'functions_encoded': ['coneprog.conelp', 'coneprog.coneqp (incl. no-inequality shortcut)', 'cvxprog.cpl (factorisation failure at an arbitrary iteration, restore-and-retry path, user F a memoised symbolic stub)',
+                                         'cvxprog.cpl: the save / restore / resume statement blocks of the relaxed line search (taken from the AST, run in cpl\'s own local namespace)'],
                    'source_hash': loader.src_hash(['coneprog', 'cvxprog', 'misc']),
                    'bounds': 'fault at factor call #1 or solve call #1..#3 of the run; cone structures %s; n=2, p=1; refinement=0; scaling W arbitrary (compute_scaling/update_scaling stubbed)' % json.dumps(DIMS_QUICK if tier == 'quick' else DIMS_THOROUGH)})
     ev.assumptions += ['loop invariant at the head of the iteration in which the fault occurs (tau,kappa>0; gap=<s,z>/tau^2; s,z interior)',
